@@ -754,10 +754,12 @@ def showCall : Connect.Call → String
   | .connect i => "connect" ++ toString i
   | .close i => "close" ++ toString i
 
-/-- C09 / C19: `link url=… http=… https=… wrap=… sel=… pclose=… gai=<-|o1,o2,…> | <reads> | <core cfg> | <env> | <reactions>`
-    — the composed trace of one connection (`ConnectLink.composed`): core observations as in `core`,
-    connection-phase actions as `P:<proxy token>`, socket-module calls as `S:<call>`.  `wfail` (in the core
-    section) counts the `sendall`s of the whole connection; `conn` there is ignored. -/
+/-- C09 / C19: `link url=… http=… https=… wrap=… sel=… pclose=… block=… gai=<-|o1,o2,…> | <reads> | <core cfg> | <env> | <reactions>`
+    — one connection attempt (`ConnectLink.attempt`): when it ends, the composed trace (`ConnectLink.composed`): core
+    observations as in `core`, connection-phase actions as `P:<proxy token>`, socket-module calls as `S:<call>`;
+    when a `recv` never returns (`block=1` and a silent proxy), what happened before it and then
+    `P:R:BLOCKS-FOREVER HUNG:…` as `linkworld.run_link` prints it.  `wfail` (in the core section) counts the
+    `sendall`s of the whole connection; `conn` there is ignored. -/
 def runLink (line : String) : String :=
   match line.splitOn " | " with
   | [linkS, readsS, cfgS, envS, reactS] =>
@@ -781,13 +783,19 @@ def runLink (line : String) : String :=
           wrapOk := kv lt "wrap" "1" = "1"
           selOk := kv lt "sel" "1" = "1"
           -- code shape found by the harness's probe of the real `_connect_proxy` (finding D11)
-          pclose := kv lt "pclose" "1" = "1" }
+          pclose := kv lt "pclose" "1" = "1"
+          -- code shape found by the harness's probe of the real `_connect` (is `settimeout(None)` called before the first `recv`?)
+          blockBeforeTunnel := kv lt "block" "0" = "1" }
       let showItem : ConnectLink.Item → String
         | .core o => showObs o
         | .io x => "P:" ++ showIo x
         | .sock c => "S:" ++ showCall c
-      let s := runAll (ConnectLink.coreCfg base i) react env
-      " ".intercalate ((ConnectLink.composed base i react env).map showItem ++ [showEnd s])
+      match ConnectLink.attempt base i react env with
+      | .ended tr =>
+        let s := runAll (ConnectLink.coreCfg base i) react env
+        " ".intercalate (tr.map showItem ++ [showEnd s])
+      | .hung tr =>
+        " ".intercalate (tr.map showItem ++ ["P:R:BLOCKS-FOREVER", "HUNG:recv-on-a-blocking-socket-and-the-proxy-is-silent"])
   | _ => "bad-op"
 
 def handle (line : String) : String :=
